@@ -11,7 +11,7 @@ from . import c01, c02
 from .indexfx import index_effects
 
 PROP = "C03"
-FLOORS = {"C03.R1": 7, "C03.R2": 4, "C03.R3": 4, "C03.R4": 4, "C03.R5": 3}
+FLOORS = {"C03.R1": 7, "C03.R2": 4, "C03.R3": 4, "C03.R4": 4, "C03.R5": 3, "C03.R6": 1}
 META = {
     "explanation": "register and unregister are summarised into symbolic index effects (index, key term, value term, +/-, "
                    "iteration space) and compared as inverses including multiplicity; every re-definition path (set_value, load) "
@@ -195,9 +195,39 @@ def _refcount(col, rule="C03.R5"):
             "remove decrements a count above one and deletes the entry when the count is one", facts)
 
 
+def _self_check(col, rule="C03.R6"):
+    """verify() compares each index entry with the regenerated one as a set / mapping, never as a sequence: the insertion
+    order of a RefCount depends on the history (a decremented entry keeps its place), the regenerated one on task order"""
+    sx = sctx(col.repo, "Manager", "verify", public=True, keep=c01.ANCHORS)
+    raises = sx.of_kind("raise")
+    if not raises:
+        raise AnalysisError("Manager.verify: no raise -- cannot decide")
+
+    def sequenced(t):
+        if S.is_call_of(t) and t[1] in (("glob", "list"), ("glob", "tuple")) and len(t[2]) == 1:
+            a = t[2][0]
+            return not (S.is_call_of(a) and a[1] == ("glob", "sorted"))
+        return False
+
+    n = 0
+    for r in raises:
+        for c in sx.conds(r.nid):
+            for t in S.subterms(c):
+                if t[:1] == ("cmp",) and t[1] in ("!=", "==") and len(t) == 4:
+                    n += 1
+                    bad = [x for x in (t[2], t[3]) if sequenced(x)]
+                    col.add(rule, f"Manager.verify#order-insensitive-comparison:{n}", not bad, sx.loc(r),
+                            "the consistency check compares an index entry with its regenerated twin as sets / mappings "
+                            "(order of insertion is history, not content)",
+                            f"compares {S.show(t, False)[:160]}")
+    if not n:
+        raise AnalysisError("Manager.verify: the raise is not guarded by a comparison -- cannot decide")
+
+
 def check(col: Collector):
     _inverse(col)
     _redefinition(col)
     _index_lists(col)
     _rebuild(col)
     _refcount(col)
+    _self_check(col)
